@@ -7,7 +7,7 @@ from trie.smt import SparseMerkleTree, calc_root  # noqa: E402
 from eth_hash.auto import keccak  # noqa: E402
 
 ID = "C14"
-LEAN_IMPORTS = ["PyTrie.Props.C14", "PyTrie.Props.SmtInt", "PyTrie.Props.NonVacuity"]
+LEAN_IMPORTS = ["PyTrie.Props.C14", "PyTrie.Props.SmtInt", "PyTrie.Props.NonVacuity", "PyTrie.Props.C14Rollback", "PyTrie.Props.NonVacuity14"]
 THEOREMS = [
     "PyTrie.Props.C14.run_rep",
     "PyTrie.Props.C14.root_is_merkle_root",
@@ -29,6 +29,13 @@ THEOREMS = [
     "PyTrie.Props.NonVacuity.smt_get",
     "PyTrie.Props.NonVacuity.smt_get_absent",
     "PyTrie.Props.NonVacuity.smt_root",
+    "PyTrie.Props.C14.rrun_lengths",
+    "PyTrie.Props.C14.rollback_history_rep",
+    "PyTrie.Props.C14.rollback_history_current",
+    "PyTrie.Props.C14.rollback_history_get",
+    "PyTrie.Props.NonVacuity14.revs_functional",
+    "PyTrie.Props.NonVacuity14.rollback_witness",
+    "PyTrie.Props.NonVacuity14.rollback_versions_witness",
 ]
 RULE = ("key sizes 1, 2, 3 and 32 (and others at random), blank and non-blank defaults, histories of set / delete (method and "
         "dict syntax, values equal to the default, blank values, rewrites) over key pools whose members differ at every bit "
